@@ -517,12 +517,12 @@ def nodesLoop (u : Uni) : Nat → Ctx → List Node → Bool → Res (List Node 
           let node := e.1
           let c3 := e.2.1
           if node.isMacro then
-            if c3.nesting != 0 then c3.err .macroNotTop
+            if c3.nesting != 0 || e.2.2 then c3.err .macroNotTop
             else
               expandMacros c3.macros c3.line node >>= fun node =>
                 nodesLoop u fuel { c3 with macros := (node.name, node.args) :: c3.macros } res true
           else if node.isSnip then
-            if c3.nesting != 0 then c3.err .snippetNotTop
+            if c3.nesting != 0 || e.2.2 then c3.err .snippetNotTop
             else if node.args.length != 0 then c3.err .snippetArgs
             else nodesLoop u fuel { c3 with snippets := (node.name, node.children) :: c3.snippets } res true
           else
@@ -545,6 +545,94 @@ end
 
 /-- fuel that is always enough for `readNodes` on `n` tokens (proved in Props/C20) -/
 def parseFuel (n : Nat) : Nat := 4 * n + 8
+
+/-! ## Recursion depth of the block parser
+
+`readNode` and `readNodes` call each other once per block that is open at the cursor.  A Go call that
+does not return before the next one starts costs stack, and a goroutine stack overflow is fatal, so the
+number of calls that are active at the same time is part of the behaviour.  The functions below are the
+block parser once more, with that number made explicit: `d` is the number of `readNodes` calls active
+when the function runs, every outcome is paired with the largest such number reached (`peak`), loops
+(`for` in Go, tail calls here) do not count.  `Props/C20` proves that erasing the bookkeeping gives back
+`readNodes` (`readNodesD_res`) and that the peak is bounded for every input (`C20_parser_recursion_bounded`). -/
+
+/-- an outcome and the largest number of simultaneously active `readNodes` calls seen on the way -/
+structure DRes (α : Type) where
+  res : Res α
+  peak : Nat
+
+namespace DRes
+/-- a step that makes no call into the recursion: it runs at the current depth -/
+@[inline] def step {α} (d : Nat) (x : Res α) : DRes α := ⟨x, d⟩
+@[inline] def bind {α β} (x : DRes α) (f : α → DRes β) : DRes β :=
+  match x.res with
+  | .ok a => ⟨(f a).res, max x.peak (f a).peak⟩
+  | .err k l => ⟨.err k l, x.peak⟩
+  | .panic => ⟨.panic, x.peak⟩
+  | .fuel => ⟨.fuel, x.peak⟩
+end DRes
+
+mutual
+def argLoopD (u : Uni) : Nat → Nat → Ctx → Node → Bool → DRes (Node × Ctx)
+  | 0, d, _, _, _ => ⟨.fuel, d⟩
+  | fuel + 1, d, c, node, continueOnLF =>
+    (DRes.step d (advanceArg c continueOnLF)).bind fun r =>
+      if r.1 then
+        if r.2.val == lbrace then
+          (readNodesD u fuel d r.2).bind fun rc => afterArgsD u fuel d rc.2 (node.setChildren true rc.1)
+        else argLoopD u fuel d r.2 (node.setArgs (node.args ++ [r.2.val])) false
+      else afterArgsD u fuel d r.2 node
+def afterArgsD (u : Uni) : Nat → Nat → Ctx → Node → DRes (Node × Ctx)
+  | 0, d, _, _ => ⟨.fuel, d⟩
+  | fuel + 1, d, c, node =>
+    if node.args.getLast? == some backslash then
+      argLoopD u fuel d c (node.setArgs node.args.dropLast) true
+    else DRes.step d (finishNode u c node)
+def nodesLoopD (u : Uni) : Nat → Nat → Ctx → List Node → Bool → DRes (List Node × Ctx)
+  | 0, d, _, _, _ => ⟨.fuel, d⟩
+  | fuel + 1, d, c, res, requireNewLine =>
+    (DRes.step d (advanceLine c requireNewLine)).bind fun r =>
+      if r.1 then DRes.step d (.ok (res, r.2))
+      else if r.2.val == rbrace then
+        DRes.step d
+          (if r.2.nesting - 1 < 0 then ({ r.2 with nesting := r.2.nesting - 1 } : Ctx).err .unexpectedClose
+           else .ok (res, { r.2 with nesting := r.2.nesting - 1 }))
+      else
+        (readNodeD u fuel d r.2).bind fun rn =>
+        (DRes.step d (closeEdge rn.1 rn.2)).bind fun e =>
+          let node := e.1
+          let c3 := e.2.1
+          if node.isMacro then
+            if c3.nesting != 0 || e.2.2 then DRes.step d (c3.err .macroNotTop)
+            else
+              (DRes.step d (expandMacros c3.macros c3.line node)).bind fun node =>
+                nodesLoopD u fuel d { c3 with macros := (node.name, node.args) :: c3.macros } res true
+          else if node.isSnip then
+            if c3.nesting != 0 || e.2.2 then DRes.step d (c3.err .snippetNotTop)
+            else if node.args.length != 0 then DRes.step d (c3.err .snippetArgs)
+            else nodesLoopD u fuel d { c3 with snippets := (node.name, node.children) :: c3.snippets } res true
+          else
+            (DRes.step d (expandMacros c3.macros c3.line node)).bind fun node =>
+              if e.2.2 then DRes.step d (.ok (res ++ [node], c3))
+              else nodesLoopD u fuel d c3 (res ++ [node]) true
+def readNodeD (u : Uni) : Nat → Nat → Ctx → DRes (Node × Ctx)
+  | 0, d, _ => ⟨.fuel, d⟩
+  | fuel + 1, d, c =>
+    if c.val == lbrace then DRes.step d (.err .blockHeader c.line)
+    else (DRes.step d (startNode c)).bind fun node => argLoopD u fuel d c node false
+/-- `readNodes` called while `d` calls of it are active: the call itself is number `d + 1`, whether or
+not it gets past its nesting check -/
+def readNodesD (u : Uni) : Nat → Nat → Ctx → DRes (List Node × Ctx)
+  | 0, d, _ => ⟨.fuel, d + 1⟩
+  | fuel + 1, d, c =>
+    if c.nesting > 255 then DRes.step (d + 1) (c.err .nestingLimit)
+    else nodesLoopD u fuel (d + 1) { c with nesting := c.nesting + 1 } [] false
+end
+
+/-- the largest number of `readNodes` calls active at the same time while the block parser of
+`readTree` runs on `src` (the first call included) -/
+def parsePeakDepth (u : Uni) (src : Str) : Nat :=
+  (readNodesD u (parseFuel (lexAll src).length) 0 { toks := lexAll src }).peak
 
 /-! ## Imports -/
 
